@@ -3505,7 +3505,7 @@ class Canon:
                     top_alias = [i_ for i_, t_ in enumerate(stmts) if t_ is s_]
                     if not (stores.get(root, 0) == 1 and root not in params and len(top_bind) == 1 and len(top_alias) == 1 and top_bind[0] < top_alias[0]):
                         continue
-                is_mod = root in module.imports and root not in params
+                is_mod = (root in module.imports or (root in module.assigns and root.isupper())) and root not in params        # (a module, or a module-level CONSTANT object)
                 is_meth = s_.value.attr in self._method_names and not s_.value.attr.startswith("__")
                 if is_mod or is_meth:
                     cand[x] = s_
